@@ -101,13 +101,13 @@ Proof. intros H. apply alookup_In in H. apply in_map_iff. exists (j, f). auto. Q
 (** * State projections *)
 
 Lemma facts_unindex_rule s id rule : st_facts (unindex_rule s id rule) = st_facts s.
-Proof. unfold unindex_rule. destruct (rule_patterns rule); reflexivity. Qed.
+Proof. unfold unindex_rule. destruct (is_scheduled rule); [reflexivity|]. destruct (rule_patterns rule); reflexivity. Qed.
 Lemma tindex_unindex_rule s id rule : st_tindex (unindex_rule s id rule) = st_tindex s.
-Proof. unfold unindex_rule. destruct (rule_patterns rule); reflexivity. Qed.
+Proof. unfold unindex_rule. destruct (is_scheduled rule); [reflexivity|]. destruct (rule_patterns rule); reflexivity. Qed.
 Lemma store_unindex_rule s id rule : st_store (unindex_rule s id rule) = st_store s.
-Proof. unfold unindex_rule. destruct (rule_patterns rule); reflexivity. Qed.
+Proof. unfold unindex_rule. destruct (is_scheduled rule); [reflexivity|]. destruct (rule_patterns rule); reflexivity. Qed.
 Lemma kind_unindex_rule s id rule : st_kind (unindex_rule s id rule) = st_kind s.
-Proof. unfold unindex_rule. destruct (rule_patterns rule); reflexivity. Qed.
+Proof. unfold unindex_rule. destruct (is_scheduled rule); [reflexivity|]. destruct (rule_patterns rule); reflexivity. Qed.
 
 (** * The targets of deleteDependencies: the candidates that name the id *)
 
